@@ -7,6 +7,7 @@ import (
 	"encoding/asn1"
 	"encoding/pem"
 	"sort"
+	"strings"
 	"sync"
 	"time"
 
@@ -418,6 +419,41 @@ func handshakeCases(w *world, r *prng) []hsCase {
 	add("identity/trailing-junk", "identity", "refuse", "", 0, build(func(h *hsWire, b []byte) { h.Identity = append(clone(w.A.certPEM), []byte("junk")...) }, w.A, nil))
 	add("identity/der-bitflip", "identity", "refuse", "", 0, build(func(h *hsWire, b []byte) {
 		h.Identity = pem.EncodeToMemory(&pem.Block{Type: "CERTIFICATE", Bytes: flip(w.A.der, len(w.A.der)-20)})
+	}, w.A, nil))
+	// --- identities of several PEM blocks: the certificate whose key verifies the signature and the bytes that are looked up in
+	//     the table must be one and the same thing; a registered certificate riding along in a later block proves nothing
+	blockOf := func(typ string, der []byte) []byte { return pem.EncodeToMemory(&pem.Block{Type: typ, Bytes: der}) }
+	cat := func(parts ...[]byte) []byte {
+		var out []byte
+		for _, p := range parts {
+			out = append(out, p...)
+		}
+		return out
+	}
+	for _, typ := range []string{"TRUSTED CERTIFICATE", "CERTIFICATE", "X509 CERTIFICATE", "EC PARAMETERS"} {
+		typ := typ
+		tag := strings.ReplaceAll(strings.ToLower(typ), " ", "-")
+		add("identity/blocks/"+tag+"-U-then-A-sig-U", "identity", "refuse", "", 0, build(func(h *hsWire, b []byte) {
+			h.Identity = cat(blockOf(typ, w.U.der), w.A.certPEM)
+		}, w.U, nil))
+		add("identity/blocks/"+tag+"-B-then-A-sig-B", "identity", "refuse", "", 0, build(func(h *hsWire, b []byte) {
+			h.Identity = cat(blockOf(typ, w.B.der), w.A.certPEM)
+		}, w.B, nil))
+		add("identity/blocks/A-then-"+tag+"-U-sig-A", "identity", "refuse", "", 0, build(func(h *hsWire, b []byte) {
+			h.Identity = cat(w.A.certPEM, blockOf(typ, w.U.der))
+		}, w.A, nil))
+		add("identity/blocks/A-then-"+tag+"-U-sig-U", "identity", "refuse", "", 0, build(func(h *hsWire, b []byte) {
+			h.Identity = cat(w.A.certPEM, blockOf(typ, w.U.der))
+		}, w.U, nil))
+	}
+	add("identity/blocks/A-relabelled-sig-A", "identity", "refuse", "", 0, build(func(h *hsWire, b []byte) {
+		h.Identity = blockOf("TRUSTED CERTIFICATE", w.A.der)
+	}, w.A, nil))
+	add("identity/blocks/preamble-text-A-sig-A", "identity", "refuse", "", 0, build(func(h *hsWire, b []byte) {
+		h.Identity = cat([]byte("Bag Attributes\n    friendlyName: node\n"), w.A.certPEM)
+	}, w.A, nil))
+	add("identity/blocks/A-twice-sig-A", "identity", "refuse", "", 0, build(func(h *hsWire, b []byte) {
+		h.Identity = cat(w.A.certPEM, w.A.certPEM)
 	}, w.A, nil))
 	// --- timestamp: checked by nobody (the code only logs); signed, so an edit without re-signing is refused
 	add("timestamp/zero-resigned", "timestamp", "attribute", "dom-a", 1, build(func(h *hsWire, b []byte) { h.Timestamp = 0 }, w.A, nil))
